@@ -94,7 +94,14 @@ func RunScript(in ScriptIn) ScriptObs {
 		ch chan Res
 	}
 	var pending []pend
+	nblocked := 0
 	for i, op := range in.Ops {
+		if nblocked >= 3 {
+			// three calls hung already (each cost its full deadline): the rest of the script
+			// would tell nothing new
+			obs.Res[i] = Res{R: "skipped"}
+			continue
+		}
 		if op.End < 0 || op.End > 1 {
 			obs.Res[i] = Res{R: "err", Err: "badop"}
 			continue
@@ -269,8 +276,8 @@ func RunScript(in ScriptIn) ScriptObs {
 		case <-time.After(wait):
 			obs.Res[i] = Res{R: "blocked"}
 			pending = append(pending, pend{i, ch})
+			nblocked++
 		}
-		_ = fix
 	}
 	// let everything that can still finish do so: both muxes are closed at the end of the
 	// script by its own last ops if the generator wanted that; here we only collect.
